@@ -289,4 +289,60 @@ theorem map_decode_respell {PK Sig Msg Sp : Type} (dec : Sp → KeyField PK) (re
     congr 1
     exact List.map_congr_left (fun w _ => decodeWire_respell dec ren hren w)
 
+section Subscribe
+variable {PK Sig Msg : Type} [DecidableEq PK]
+
+theorem authentic_subscribe (verify : PK → Sig → Msg → Bool) (parse : Msg → Option Ann)
+    (seen : List (Wire PK Sig Msg)) (st : State PK) (svc : Nat) (h : Authentic verify parse seen st) :
+    Authentic verify parse seen (subscribeTo svc st) := by
+  refine ⟨?_, h.2⟩
+  intro e he
+  simp only [subscribeTo, List.mem_append, List.mem_map, List.mem_filter] at he
+  rcases he with he | ⟨x, ⟨hx, _⟩, rfl⟩
+  · exact h.1 e he
+  · exact (h.2 x hx).1
+
+/-- the wire tuples of a history, in order -/
+def wiresOf : List (Ev PK Sig Msg) → List (Wire PK Sig Msg)
+  | [] => []
+  | .batch ws :: rest => ws ++ wiresOf rest
+  | .subscribe _ :: rest => wiresOf rest
+
+theorem authentic_events (verify : PK → Sig → Msg → Bool) (parse : Msg → Option Ann)
+    (evs : List (Ev PK Sig Msg)) (subs : List Nat) (seen : List (Wire PK Sig Msg)) (st : State PK)
+    (h : Authentic verify parse seen st) :
+    Authentic verify parse (seen ++ wiresOf evs) (gotEvents verify parse subs st evs).2 := by
+  induction evs generalizing subs seen st with
+  | nil => simpa [gotEvents, wiresOf] using h
+  | cons ev rest ih =>
+    cases ev with
+    | batch ws =>
+      have := ih subs (seen ++ ws) _ (authentic_batch verify parse subs seen st ws h)
+      simpa [gotEvents, wiresOf, List.append_assoc] using this
+    | subscribe svc =>
+      have := ih (subs ++ [svc]) seen _ (authentic_subscribe verify parse seen st svc h)
+      simpa [gotEvents, wiresOf] using this
+
+theorem seq_mono_batch (verify : PK → Sig → Msg → Bool) (parse : Msg → Option Ann) (subs : List Nat)
+    (ws : List (Wire PK Sig Msg)) (st : State PK) (idx : Index PK) (a : Ann) (m : Int) (ha : a.seq = .int m)
+    (h : ∃ b n, lookup idx st.store = some b ∧ b.seq = .int n ∧ (b = a ∨ m < n)) :
+    ∃ b n, lookup idx (gotBatch verify parse subs st ws).store = some b ∧ b.seq = .int n ∧ (b = a ∨ m < n) := by
+  induction ws generalizing st with
+  | nil => exact h
+  | cons w ws ih => exact ih _ (seq_mono_one verify parse subs st w idx a m ha h)
+
+theorem seq_mono_events (verify : PK → Sig → Msg → Bool) (parse : Msg → Option Ann)
+    (evs : List (Ev PK Sig Msg)) (subs : List Nat) (st : State PK) (idx : Index PK) (a : Ann) (m : Int)
+    (ha : a.seq = .int m)
+    (h : ∃ b n, lookup idx st.store = some b ∧ b.seq = .int n ∧ (b = a ∨ m < n)) :
+    ∃ b n, lookup idx (gotEvents verify parse subs st evs).2.store = some b ∧ b.seq = .int n ∧ (b = a ∨ m < n) := by
+  induction evs generalizing subs st with
+  | nil => exact h
+  | cons ev rest ih =>
+    cases ev with
+    | batch ws => exact ih subs _ (seq_mono_batch verify parse subs ws st idx a m ha h)
+    | subscribe svc => exact ih (subs ++ [svc]) (subscribeTo svc st) h
+
+end Subscribe
+
 end Tahoe.Introducer
